@@ -103,11 +103,16 @@ pub(crate) fn environment_step() {
     }
 }
 
+/// spin / yield hints have no semantic effect (and the x86 `pause` intrinsic is not supported by Kani)
+fn no_op() {}
+
 // =================================================================================================
 // C03 / C04 / C18 (early returns): one whole call while the segment does not change
 // =================================================================================================
 #[kani::proof]
 #[kani::unwind(2)]
+#[kani::stub(std::hint::spin_loop, no_op)]
+#[kani::stub(std::thread::yield_now, no_op)]
 fn c03_snapshot_quiescent() {
     let mut seg = any_seg();
     let ver = seg.hdr.version.load(Ordering::Relaxed);
@@ -167,6 +172,8 @@ pub(crate) fn retry_budget() -> i32 {
 
 #[kani::proof]
 #[kani::unwind(5)]
+#[kani::stub(std::hint::spin_loop, no_op)]
+#[kani::stub(std::thread::yield_now, no_op)]
 fn c18_snapshot_adversarial_bounded() {
     let mut seg = any_seg();
     let cache = any_ceb();
@@ -210,26 +217,26 @@ fn c18_snapshot_adversarial_bounded() {
 // may fail with a symbolic errno, otherwise returns a page whose first bytes are the file content
 // followed by zeros.
 // =================================================================================================
-const MODEL_MAX: usize = 96;
-const MODEL_CONTENT: usize = 24;
+pub(crate) const MODEL_MAX: usize = 96;
+pub(crate) const MODEL_CONTENT: usize = 24;
 extern "C" {
     // state of harness/clock-bound-shm/posix_model.c
-    static mut verif_file: [u8; MODEL_CONTENT];
-    static mut verif_file_len: u64;
-    static mut verif_missing: i32;
-    static mut verif_is_dir: i32;
-    static mut verif_mmap_fails: i32;
-    static mut verif_errno: i32;
-    static mut verif_open_fds: i32;
-    static mut verif_live_mappings: i32;
-    static mut verif_bad_arg: i32;
-    static mut verif_page: [u8; 4096];
+    pub(crate) static mut verif_file: [u8; MODEL_CONTENT];
+    pub(crate) static mut verif_file_len: u64;
+    pub(crate) static mut verif_missing: i32;
+    pub(crate) static mut verif_is_dir: i32;
+    pub(crate) static mut verif_mmap_fails: i32;
+    pub(crate) static mut verif_errno: i32;
+    pub(crate) static mut verif_open_fds: i32;
+    pub(crate) static mut verif_live_mappings: i32;
+    pub(crate) static mut verif_bad_arg: i32;
+    pub(crate) static mut verif_page: [u8; 4096];
 }
 
-fn le_u32(b: &[u8; MODEL_CONTENT], at: usize) -> u32 {
+pub(crate) fn le_u32(b: &[u8; MODEL_CONTENT], at: usize) -> u32 {
     u32::from_ne_bytes([b[at], b[at + 1], b[at + 2], b[at + 3]])
 }
-fn le_u16(b: &[u8; MODEL_CONTENT], at: usize) -> u16 {
+pub(crate) fn le_u16(b: &[u8; MODEL_CONTENT], at: usize) -> u16 {
     u16::from_ne_bytes([b[at], b[at + 1]])
 }
 
